@@ -241,6 +241,47 @@ def check(ld, n, failing, plan, site, with_key, foreign_at, res, foreign_type=Fo
                           {'again': again, 'want': want}, sig=sig)
 
 
+def check_epochs(ld, n, failing, plan, with_key, res, where='below'):
+    """Several epochs (and an abandoned one) over ONE catching dataset whose
+    upstream order changes per epoch (seeded reshuffle): in every epoch exactly
+    the examples that do not raise are delivered - as a multiset, the order is
+    the shuffle's.  `where`: the reshuffle sits below or above the raising map."""
+    import numpy as np
+    case = {'n': n, 'failing': sorted(failing), 'plan': plan, 'with_key': with_key,
+            'site': 'reshuffled-upstream', 'reshuffle': where}
+    exceptions, types = plans(ld)[plan]
+    raiser = Raiser(failing, types)
+    src = ld.new({f'k{i}': i for i in range(n)})
+    if where == 'below':
+        ds = src.shuffle(True, rng=np.random.RandomState(n)).map(raiser)
+    else:
+        ds = src.map(raiser).shuffle(True, rng=np.random.RandomState(n))
+    res.case(('epochs', n, tuple(sorted(failing)), plan, with_key, where),
+             bool(failing) and len(failing) < n)
+    sig = {'site': 'reshuffled-upstream', 'plan': plan, 'with_key': with_key}
+    want = sorted((f'k{i}', ('r', i)) if with_key else ('r', i)
+                  for i in range(n) if i not in failing)
+    try:
+        c = ds.catch() if exceptions is None else ds.catch(exceptions)
+        src_ = (lambda: c.items()) if with_key else (lambda: c)
+        outs = []
+        for ep in range(4):
+            if ep == 2:
+                it = iter(src_())          # an abandoned epoch in between
+                next(it, None)
+                del it
+            outs.append(sorted(src_()))
+    except BaseException as e:
+        res.violation('listed-exception-propagated', case, exc_sig(e), sig=sig)
+        return
+    res.count('catch_epochs_over_reshuffled_upstream', len(outs))
+    for ep, got in enumerate(outs):
+        if got != want:
+            res.violation('catch-output-differs', {**case, 'epoch': ep},
+                          {'got': got, 'want': want}, sig=sig)
+            return
+
+
 def check_equivalence(ld, n, failing, res, style='bool'):
     """lazy filter == eager filter == FilterException under catch; the
     predicate may return any object with the right truth value."""
@@ -329,6 +370,10 @@ def run_shard(spec, res):
                           foreign_type=ForeignBase)
                     check(ld, n, failing, 'tuple', site, wk, fa, res,
                           foreign_type=KeyError)
+            if site == 'map':
+                for plan in ('default', 'tuple'):
+                    for where in ('below', 'above'):
+                        check_epochs(ld, n, failing, plan, wk, res, where)
             # the same through every consumption path that copies the stage
             if n <= spec.get('NPATH', 3):
                 for path in COPYING:
@@ -353,6 +398,10 @@ def finalize(res, tier):
 
 def replay(case, res):
     ld = import_lazy_dataset()
+    if case.get('site') == 'reshuffled-upstream':
+        check_epochs(ld, case['n'], case['failing'], case['plan'], case['with_key'], res,
+                     case.get('reshuffle', 'below'))
+        return
     if case.get('check') == 'three-formulations':
         check_equivalence(ld, case['n'], case['failing'], res,
                           case.get('predicate_returns', 'bool'))
